@@ -53,6 +53,18 @@ Decide(x) == IF Cardinality(FormatsOf(x)) > 1 THEN "ImageFormatError:multiple"
              ELSE IF FormatsOf(x) = {} THEN "ImageFormatError:none"
              ELSE CHOOSE f \in FormatsOf(x) : TRUE
 
+(* The same decision as a function of what the inspectors SAY (complete / format_match per   *)
+(* inspector, whether the stream was finished): this is InspectWrapper.formats/format itself, *)
+(* used to validate recorded runs of the real wrapper (Trace_Detect).                         *)
+FromSignals(insp, complete, match, finished) ==
+  LET nonraw == insp \ {"raw"}
+      allc == \A i \in nonraw : complete[i]
+      m == {i \in nonraw : match[i]}
+  IN IF ~allc /\ ~finished THEN "None"
+     ELSE IF Cardinality(m) > 1 THEN "ImageFormatError"
+     ELSE IF Cardinality(m) = 1 THEN CHOOSE i \in m : TRUE
+     ELSE IF "raw" \in insp THEN "raw" ELSE "ImageFormatError"
+
 AllowedFamily == {{}} \cup {Formats \ {"raw"}} \cup {{f} : f \in Formats}
                  \cup {{"raw", f} : f \in Formats \ {"raw"}}
                  \cup {{"qcow2", "vmdk"}, {"iso", "gpt", "raw"}, {"vhd", "vhdx", "vdi"}, {"nosuchformat"}}
